@@ -5,6 +5,7 @@ import ThriftVerif.Facts.ExpectWire
 #print axioms ThriftVerif.Properties.C13.frame_alloc_bound
 #print axioms ThriftVerif.Properties.C13.frame_alloc_bound_any_threshold
 #print axioms ThriftVerif.Properties.C13.steps_linear
+#print axioms ThriftVerif.Properties.C13.decoded_value_no_larger_than_input
 #print axioms ThriftVerif.Properties.C13.decoded_list_count_le_input
 #print axioms ThriftVerif.Properties.C13.lazy_counts_le_input
 #print axioms ThriftVerif.Properties.C13.legacy_name_alloc_unbounded_before_fix
